@@ -84,6 +84,7 @@ static void over_identity(vh::Rng & rng, unsigned nboxes)
     using field_t = covfie::field<backend_t>;
     std::string name = std::string("clamp<identity<") + vh::tn<V>() + "," + std::to_string(N) + ">>";
     if (!vh::selected(name)) return;
+    std::unique_ptr<field_t> prev;
     for (unsigned b = 0; b < nboxes; ++b) {
         typename backend_t::configuration_t cfg;
         for (std::size_t k = 0; k < N; ++k) {
@@ -109,7 +110,20 @@ static void over_identity(vh::Rng & rng, unsigned nboxes)
             handed.max = typename field_t::coordinate_t(hi);
         }
         vh::set_case("%s box#%u", name.c_str(), b);
-        field_t f(covfie::make_parameter_pack(typename backend_t::configuration_t(handed), std::monostate{}));
+        // two out of three fields reach their box by ASSIGNMENT over the previous iteration's field (another box):
+        // nothing of the old box may survive
+        field_t built(covfie::make_parameter_pack(typename backend_t::configuration_t(handed), std::monostate{}));
+        std::unique_ptr<field_t> target = std::move(prev);
+        field_t * use = &built;
+        if (target && b % 3 == 1) {
+            *target = built;
+            use = target.get();
+        } else if (target && b % 3 == 2) {
+            *target = std::move(built);
+            use = target.get();
+        }
+        field_t & f = *use;
+        prev = std::make_unique<field_t>(f);
         typename field_t::view_t view(f);
         std::vector<V> cat[N];
         uint64_t total = 1;
@@ -159,6 +173,7 @@ static void over_storage(vh::Rng & rng, unsigned nfields)
     using field_t = covfie::field<backend_t>;
     std::string name = std::string("clamp<") + (MORTON ? "morton" : "strided") + "<" + (PROBE ? "probe" : "array") + ">>,N=" + std::to_string(N);
     if (!vh::selected(name)) return;
+    std::unique_ptr<field_t> prev;
     for (unsigned fi = 0; fi < nfields; ++fi) {
         covfie::utility::nd_size<N> ext;
         typename backend_t::configuration_t cfg;
@@ -177,7 +192,19 @@ static void over_storage(vh::Rng & rng, unsigned nfields)
             for (std::size_t k = 0; k < N; ++k) len *= ext[k];
         }
         vh::set_case("%s field#%u extents=%s", name.c_str(), fi, vh::jarr(ext, N).c_str());
-        field_t f(covfie::make_parameter_pack(typename backend_t::configuration_t(cfg), typename order_t::configuration_t(ext), covfie::utility::nd_size<1>{len}));
+        field_t built(covfie::make_parameter_pack(typename backend_t::configuration_t(cfg), typename order_t::configuration_t(ext), covfie::utility::nd_size<1>{len}));
+        // (as above: two out of three fields are assigned over the previous one, which had other extents and another box)
+        std::unique_ptr<field_t> target = std::move(prev);
+        field_t * use = &built;
+        if (target && fi % 3 == 1) {
+            *target = built;
+            use = target.get();
+        } else if (target && fi % 3 == 2) {
+            *target = std::move(built);
+            use = target.get();
+        }
+        field_t & f = *use;
+        prev = std::make_unique<field_t>(f);
         typename order_t::non_owning_data_t raw(f.backend().get_backend());
         if constexpr (!PROBE) {
             uint64_t c[N] = {};
